@@ -91,3 +91,45 @@ def scale_cache_line(src, tier):
     s = s[:m.start()] + "const CACHE_LINE_SIZE: usize = %d;" % val + s[m.end():]
     open(p, "w").write(s)
     return "constant scaling: lowmarkbufreader::CACHE_LINE_SIZE %s -> %d (CBMC cannot handle copy_within over a 4 KiB array with symbolic ranges: > 30 GB)" % (m.group(1), val)
+
+
+def extract_low_mark_sites(src, tier):
+    """third argument of LowMarkBufReader::new( .. ) at the call sites in src/bin -> const LOW_MARK_SITES in the harness"""
+    sites = []
+    for rel in ("src/bin/adlt/convert.rs", "src/bin/adlt/remote.rs"):
+        p = os.path.join(src, rel)
+        if not os.path.exists(p):
+            raise Inconclusive("call-site file %s not found" % rel)
+        s = open(p).read()
+        test_at = s.find("#[cfg(test)]")
+        for m in re.finditer(r"LowMarkBufReader::new\(", s):
+            if test_at >= 0 and m.start() > test_at:
+                continue
+            i = m.end()
+            depth = 1
+            args = [""]
+            while i < len(s) and depth > 0:
+                c = s[i]
+                if c in "([{":
+                    depth += 1
+                elif c in ")]}":
+                    depth -= 1
+                    if depth == 0:
+                        break
+                if c == "," and depth == 1:
+                    args.append("")
+                else:
+                    args[-1] += c
+                i += 1
+            args = [a.strip() for a in args if a.strip()]
+            if len(args) != 3:
+                raise Inconclusive("LowMarkBufReader::new call with %d arguments in %s" % (len(args), rel))
+            sites.append((rel, args[2]))
+    if len(sites) < 2:
+        raise Inconclusive("expected LowMarkBufReader::new call sites in convert.rs and remote.rs, found %d" % len(sites))
+    dst = os.path.join(src, "src/dlt/verif_kani_lowmark_sites.rs")
+    txt = "\n// ---- generated: low-mark argument expressions of the call sites ----\n" \
+          "#[allow(unused_imports)]\nuse crate::dlt::*;\nconst LOW_MARK_SITES: [usize; %d] = [%s];\n" % (
+              len(sites), ", ".join("(%s) as usize" % e for _r, e in sites))
+    open(dst, "a").write(txt)
+    return "source-extracted constants: low-mark argument of LowMarkBufReader::new at %s" % "; ".join("%s: `%s`" % s for s in sites)
